@@ -11,6 +11,8 @@ import PhotVerif.Model.Peaks
 import PhotVerif.Proofs.FieldInst
 import PhotVerif.Proofs.Raster
 import Mathlib.Algebra.Order.Floor.Ring
+import Mathlib.Data.Rat.Floor
+import PhotVerif.Gen.XyRounding
 import Mathlib.Tactic.FieldSimp
 import Mathlib.Tactic.Ring
 import Mathlib.Tactic.Linarith
@@ -321,5 +323,42 @@ theorem nbhdMax_translate (c C : Peaks.Cfg) (dy dx : Nat) (hoff : C.offsets = c.
 -- non-vacuity: a 2 × 3 raster with one bright pixel embedded at (1, 2) in a 4 × 6 canvas
 example : Centroid.centroidCom 4 6 (embedV 2 3 6 1 2 (fun p => if p = 4 then V.fin 5 else V.fin 0))
     (embedM 2 3 6 1 2 (fun _ => false)) = some (3, 2) := by decide +kernel
+
+/-! ### supplied positions (`xycoords`) → pixels: covariant under integer translations -/
+
+/-- TABLE OBLIGATION (regenerated from the source): both finders map the supplied positions to pixels with `ceil(x - 0.5)`, the
+    expression `Peaks.xyPixel` models (seed C03-r9 used `np.round`, whose ties go to the even integer: not translation covariant) -/
+theorem xycoords_rounding_table :
+    Gen.XyRounding.rows = [("DAOStarFinder", "np.ceil(self.xycoords - 0.5).astype(int)"),
+                           ("IRAFStarFinder", "np.ceil(self.xycoords - 0.5).astype(int)")] := by decide
+
+theorem xyPixel_eq_ceil (x : Rat) : Peaks.xyPixel x = ⌈x - 1 / 2⌉ := rfl
+
+/-- the pixel of a translated position is the translated pixel, half-pixel positions included -/
+theorem xyPixel_translate (x : Rat) (n : Int) : Peaks.xyPixel (x + n) = Peaks.xyPixel x + n := by
+  rw [xyPixel_eq_ceil, xyPixel_eq_ceil]
+  have : x + (n : Rat) - 1 / 2 = (x - 1 / 2) + (n : Rat) := by ring
+  rw [this, Int.ceil_add_intCast]
+
+/-- it is the pixel whose centre is nearest (the lower one on a tie) -/
+theorem xyPixel_nearest (x : Rat) : (Peaks.xyPixel x : Rat) - 1 / 2 < x ∧ x ≤ (Peaks.xyPixel x : Rat) + 1 / 2 := by
+  rw [xyPixel_eq_ceil]
+  constructor
+  · have := Int.ceil_lt_add_one (x - 1 / 2); linarith
+  · have := Int.le_ceil (x - 1 / 2); linarith
+
+-- why half-to-even rounding would not do: 10.5 → 10 but 11.5 → 12 (a shift by one pixel moves the result by two)
+example : Peaks.roundHalfEven (21 / 2) = 10 ∧ Peaks.roundHalfEven (23 / 2) = 12 ∧ Peaks.xyPixel (21 / 2) = 10 ∧ Peaks.xyPixel (23 / 2) = 11 := by
+  decide +kernel
+
+/-- `py2intround` (the start pixel of `centroid_quadratic`; ties away from zero) commutes with integer translations as long as both
+    positions are non-negative, which pixel coordinates are -/
+theorem py2intround_translate (a : Rat) (n : Int) (ha : 0 ≤ a) (han : 0 ≤ a + n) :
+    Centroid.py2intround (a + n) = Centroid.py2intround a + n := by
+  unfold Centroid.py2intround
+  rw [if_pos ha, if_pos han]
+  have : a + (n : Rat) + 1 / 2 = (a + 1 / 2) + (n : Rat) := by ring
+  rw [this]
+  exact Int.floor_add_intCast (a + 1 / 2) n
 
 end PhotVerif.C03
